@@ -83,6 +83,25 @@ def replay(binp, scripts, sd, name, full=False, timeout=600):
     return tp
 
 
+def conformance(chk, tp, name):
+    """code -> M: the full-mode trace (state after every gate step) validated against Breaker.tla by TLC
+    (spec/TraceBreaker.tla).  Divergence says the MODEL does not describe the code at that step; it is reported
+    and counted, never a property verdict."""
+    r = vlib.tlc("TraceBreaker", "TraceBreaker.cfg", workers=1, timeout=1800, env={"TRACE_FILE": tp}, deadlock=False)
+    if r.rc != 0:
+        raise vlib.FrameworkError("TraceBreaker did not consume the trace (rc=%d):\n%s" % (r.rc, r.out[-2000:]))
+    chk.add_tlc("M-conformance:TraceBreaker over " + name, r)
+    div = r.printed("MDIV")
+    c = chk.cov.setdefault("m_conformance", {"trace_lines": 0, "diverged_segments": 0, "first": []})
+    c["trace_lines"] += r.distinct - 1
+    c["diverged_segments"] += len(div)
+    c["first"] += div[:3 - len(c["first"])] if len(c["first"]) < 3 else []
+    if div:
+        vlib.log("MODEL-DRIFT (not a verdict): %d replayed segments of %s take a step Breaker.tla cannot explain, first: %s"
+                 % (len(div), name, json.dumps(div[0])[:400]))
+    return div
+
+
 _seg_cache = {}
 
 
